@@ -138,6 +138,11 @@ def _memo_id(a):
     return None
 
 
+class _RepeatBody:
+    def __init__(self, part):
+        self.part = part
+
+
 class Env:
     __slots__ = ('vars', 'parent', 'pyglobals', 'func')
 
@@ -729,7 +734,11 @@ class Interp:
         if isinstance(v, tuple):
             return list(v)
         if isinstance(v, SList):
+            if any(isinstance(x, SeqPart) for x in v.items):
+                self.unsupported("iteration over a list with a segment of symbolic length", node)
             return list(v.items)
+        if isinstance(v, SymColl):
+            return [Repeat(None, v.part)]        # only meaningful to comprehensions (see comp_iter)
         if isinstance(v, SDict):
             return list(v.d.keys())
         if isinstance(v, SSet):
@@ -1034,6 +1043,8 @@ class Interp:
         if isinstance(a, (tuple, SList)) and isinstance(b, (tuple, SList)) and kind_of(a) == kind_of(b):
             ia = a if isinstance(a, tuple) else a.items
             ib = b if isinstance(b, tuple) else b.items
+            if any(isinstance(x, SeqPart) for x in ia) or any(isinstance(x, SeqPart) for x in ib):
+                return values_eq(self.st, a, b)
             if len(ia) != len(ib):
                 return False
             return zand(*[self.equals(x, y) for x, y in zip(ia, ib)])
@@ -1321,6 +1332,21 @@ class Interp:
             g = generators[i]
             for x in self.iterate(self.eval(g.iter, e), g):
                 e2 = Env({}, parent=e)
+                if isinstance(x, Repeat):
+                    # one generic (opaque) element stands for every element of the symbolic segment;
+                    # supported for a single generator without conditions only
+                    if len(generators) != 1 or g.ifs:
+                        self.unsupported("comprehension over a symbolic-length collection with conditions", g)
+                    self.assign(g.target, SOpaque(self.st.fresh_name('elem'), None, self.st.fresh_bool('t')), e2)
+                    n0 = len(self._comp_out) if hasattr(self, '_comp_out') else None
+                    marker = _RepeatBody(x.part)
+                    self._repeat_stack = getattr(self, '_repeat_stack', [])
+                    self._repeat_stack.append(marker)
+                    try:
+                        rec(i + 1, e2)
+                    finally:
+                        self._repeat_stack.pop()
+                    continue
                 self.assign(g.target, x, e2)
                 ok = True
                 for cond in g.ifs:
@@ -1336,9 +1362,16 @@ class Interp:
         self.comp_iter(node.generators, env, lambda e: out.append(self.eval(node.elt, e)))
         return SList(out)
 
+    def _comp_value(self, node, e):
+        v = self.eval(node.elt, e)
+        rs = getattr(self, '_repeat_stack', [])
+        if rs:
+            return Repeat(v, rs[-1].part)
+        return v
+
     def e_GeneratorExp(self, node, env):
         out = []
-        self.comp_iter(node.generators, env, lambda e: out.append(self.eval(node.elt, e)))
+        self.comp_iter(node.generators, env, lambda e: out.append(self._comp_value(node, e)))
         return SGen(out)
 
     def e_SetComp(self, node, env):
